@@ -41,7 +41,7 @@ type oracle struct {
 	hist      []hev // true partner-health transitions injected by the harness
 	partnerUp bool
 	cbFail    bool // scripted outcome of the role-change callback
-	force     int  // accepted (or still executing) ForceFailover commands not yet consumed by a role-change callback or voided by a canceled event
+	force     int  // ForceFailover commands the controller accepted (initiated event) not yet consumed by a role-change callback or voided by a canceled event
 
 	okCb       map[ha.Role]int // callbacks that returned nil and have not yet been matched with an observed role change
 	role       ha.Role         // role at the last observation
@@ -202,6 +202,9 @@ func (o *oracle) onEvent(e ha.FailoverEvent) {
 	switch e.Type {
 	case ha.FailoverEventCompleted:
 		o.completed++
+	case ha.FailoverEventInitiated:
+		// emitted only on the operator path (ForceFailover accepted)
+		o.force++
 	case ha.FailoverEventCanceled:
 		o.force = 0
 		// The controller announced that the pending promotion is off: the down
